@@ -488,6 +488,36 @@ macro_rules! field_bisim {
             ("to_polar.1", |a, _| ComplexField::to_polar(a).1),
             ("exp_m1", |a, _| ComplexField::exp_m1(a)),
             ("tanh", |a, _| ComplexField::tanh(a)),
+            // the remaining unary methods of the interface (a hand-expanded method may treat an
+            // absent part differently from the operator expression it replaces)
+            ("modulus_squared", |a, _| ComplexField::modulus_squared(a)),
+            ("norm1", |a, _| ComplexField::norm1(a)),
+            ("abs", |a, _| ComplexField::abs(a)),
+            ("real", |a, _| ComplexField::real(a)),
+            ("conjugate", |a, _| ComplexField::conjugate(a)),
+            ("exp", |a, _| ComplexField::exp(a)),
+            ("exp2", |a, _| ComplexField::exp2(a)),
+            ("ln_1p", |a, _| ComplexField::ln_1p(a.clone() * a)),
+            ("ln(x^2)", |a, _| ComplexField::ln(a.clone() * a)),
+            ("sin", |a, _| ComplexField::sin(a)),
+            ("cos", |a, _| ComplexField::cos(a)),
+            ("tan", |a, _| ComplexField::tan(a)),
+            ("sin_cos.0", |a, _| ComplexField::sin_cos(a).0),
+            ("sin_cos.1", |a, _| ComplexField::sin_cos(a).1),
+            ("sinh", |a, _| ComplexField::sinh(a)),
+            ("cosh", |a, _| ComplexField::cosh(a)),
+            ("sinh_cosh.1", |a, _| ComplexField::sinh_cosh(a).1),
+            ("atan", |a, _| ComplexField::atan(a)),
+            ("asinh", |a, _| ComplexField::asinh(a)),
+            ("cbrt", |a, _| ComplexField::cbrt(a)),
+            ("powi(3)", |a, _| ComplexField::powi(a, 3)),
+            ("powi(-2)", |a, _| ComplexField::powi(a, -2)),
+            ("sinhc", |a, _| ComplexField::sinhc(a)),
+            ("cosc", |a, _| ComplexField::cosc(a)),
+            ("to_exp.1", |a, _| ComplexField::to_exp(a).1),
+            ("simd_modulus_squared", |a, _| simba::simd::SimdComplexField::simd_modulus_squared(a)),
+            ("simd_mul_add", |a, b| simba::simd::SimdComplexField::simd_mul_add(a.clone(), b, a)),
+            ("simd_abs", |a, _| simba::simd::SimdComplexField::simd_abs(a)),
         ];
         for (name, m) in &methods {
             for ax in &xs {
@@ -758,7 +788,7 @@ fn main() {
         mode: cli.mode,
         seed: cli.seed,
         start,
-        rule: "abstraction alpha: absent part -> zeros. (a) every operation of a 53-operation alphabet, the checked / unchecked narrowing and identity conversions and 20 methods of nalgebra's field interface on DualVec and Dual2Vec, x alpha-operand tuples (each group zero or non-zero, two real parts) x ALL 2^k encodings of the zero groups as absent or explicit zeros; (b) BFS over histories of 13 accumulator updates (compound assignments with dual and scalar operands, y - acc, y / acc, neg, recip, sqrt) x y in every encoding, from every encoding of the accumulator; a state is an alpha-class (alpha value bits + the set of concrete presence patterns that reach it), de-duplicated per depth. Oracle: alpha(result) is the same number in every slot for all encodings (bisimulation), and equals the exact rational reference where no rounding can occur. Non-trivial = alpha tuple reached through more than one encoding. (d) conversions of vector dual numbers to other widths and to plain floats, nalgebra's field interface incl. ties of the real parts, and every operator form of the public part type Derivative, for every encoding.".into(),
+        rule: "abstraction alpha: absent part -> zeros. (a) every operation of a 53-operation alphabet, the checked / unchecked narrowing and identity conversions and 48 methods of nalgebra's field interface on DualVec and Dual2Vec, x alpha-operand tuples (each group zero or non-zero, two real parts) x ALL 2^k encodings of the zero groups as absent or explicit zeros; (b) BFS over histories of 13 accumulator updates (compound assignments with dual and scalar operands, y - acc, y / acc, neg, recip, sqrt) x y in every encoding, from every encoding of the accumulator; a state is an alpha-class (alpha value bits + the set of concrete presence patterns that reach it), de-duplicated per depth. Oracle: alpha(result) is the same number in every slot for all encodings (bisimulation), and equals the exact rational reference where no rounding can occur. Non-trivial = alpha tuple reached through more than one encoding. (d) conversions of vector dual numbers to other widths and to plain floats, nalgebra's field interface incl. ties of the real parts, and every operator form of the public part type Derivative, for every encoding.".into(),
         assumptions: vec!["signed zeros are identified (0 - r vs -r); NaN equals NaN".into(), "history frontier capped per depth and type when it exceeds the cap (reported as frontier_capped)".into()],
         extra: json!({"axes": axes, "alpha_classes": classes}),
         exhaustive: !capped,
